@@ -18,7 +18,7 @@ def c01(tier, seed):
 
 
 def _c01(tier, seed):
-    return combine(fam_list(tier, ['core_q', 'edge_q', 'frac_q', 'split_q', 'split5_q', 'split2_q', 'order_q', 'two_q', 'two_split_q', 'two_fills_q', 'matcher_q', 'lines_q', 'lines4_q', 'lines_splits_q'], ['core_t', 'split_t', 'sim_t', 'matcher_t', 'matcher_sim_t', 'lines_t', 'lines5_t']) + [trace_family(tier, seed)], 'multi_leg_disposals',
+    return combine(fam_list(tier, ['core_q', 'edge_q', 'frac_q', 'split_q', 'split5_q', 'split2_q', 'order_q', 'two_q', 'two_split_q', 'two_fills_q', 'matcher_q', 'lines_q', 'lines4_q', 'lines_splits_q', 'lines_files_q'], ['core_t', 'split_t', 'sim_t', 'matcher_t', 'matcher_sim_t', 'lines_t', 'lines5_t', 'lines_files_t']) + [trace_family(tier, seed)], 'multi_leg_disposals',
                    'every cell ledger of the family (TLC-enumerated) x base dates; non-trivial = ledgers with a disposal '
                    'identified by two or more legs')
 
@@ -42,7 +42,7 @@ def c05(tier, seed):
 
 
 def c06(tier, seed):
-    return combine(fam_list(tier, ['order_q', 'order_split_q', 'two_q', 'two_fills_q', 'events_order_q', 'lines_q', 'lines4_q', 'lines_fills_q'], ['order_t', 'two_t', 'lines_t', 'lines5_t']) + [cli_family(tier), fx_family(tier)], ['variant_comparisons', 'partitions', 'fx_line_orders'],
+    return combine(fam_list(tier, ['order_q', 'order_split_q', 'two_q', 'two_fills_q', 'events_order_q', 'lines_q', 'lines4_q', 'lines_fills_q', 'lines_files_q'], ['order_t', 'two_t', 'lines_t', 'lines5_t', 'lines_files_t']) + [cli_family(tier), fx_family(tier)], ['variant_comparisons', 'partitions', 'fx_line_orders'],
                    'every cell ledger of the family rendered in canonical order and as reversed / sells-first / '
                    'actions-first / two seeded shuffles / adjacent and separated half fills / lower-case tickers; '
                    'non-trivial = implementation-vs-implementation comparisons of a variant with the canonical rendering',
@@ -60,7 +60,7 @@ def c09(tier, seed):
 
 
 def _c09(tier, seed):
-    return combine(fam_list(tier, ['two_q', 'two_split_q', 'two_fills_q', 'two_events_q', 'lines_q'], ['two_t', 'lines_t']) + laws(tier, ['project_q'], ['project_t']), ['covered', 'nontrivial'],
+    return combine(fam_list(tier, ['two_q', 'two_split_q', 'two_fills_q', 'two_events_q', 'lines_q', 'lines_files_q'], ['two_t', 'lines_t', 'lines_files_t']) + laws(tier, ['project_q'], ['project_t']), ['covered', 'nontrivial'],
                    'two-security cell ledgers (TLC checks OthersUntouched on every step); each security\'s legs, costs and '
                    'holding must equal the single-security specification outcome whatever the other security does and '
                    'wherever its lines sit; non-trivial = accepted ledgers')
